@@ -388,7 +388,54 @@ def spx_path(pid, profile='debug'):
     return os.path.join(TARGET, profile, pid.lower())
 
 
-def run_lines(exe, lines, timeout=600, shards=NPROC):
+def run_dialogue(exe, chunk, per_case=30.0):
+    """feed one line at a time and wait for its answer; a case that kills the process gives 'abort rc=..',
+    one that does not answer within the limit gives 'abort timeout' (the process is killed and restarted)"""
+    import select
+    res = []
+    p = None
+    hung = 0
+
+    def start():
+        return subprocess.Popen([exe], stdin=subprocess.PIPE, stdout=subprocess.PIPE, stderr=subprocess.DEVNULL,
+                                env=ENV, text=True, bufsize=1)
+    for l in chunk:
+        if hung >= 3:
+            res.append('skipped')          # three cases of this shard hung already: the verdict is established
+            continue
+        if p is None or p.poll() is not None:
+            p = start()
+        try:
+            p.stdin.write(l + '\n')
+            p.stdin.flush()
+        except (BrokenPipeError, OSError):
+            res.append('abort rc=%s' % p.poll())
+            p = None
+            continue
+        ready, _, _ = select.select([p.stdout], [], [], per_case)
+        if not ready:
+            p.kill(); p.wait()
+            res.append('abort timeout')
+            p = None
+            hung += 1
+            continue
+        out = p.stdout.readline()
+        if out == '':
+            p.wait()
+            res.append('abort rc=%s' % p.returncode)
+            p = None
+        else:
+            res.append(out.rstrip('\n'))
+    if p is not None and p.poll() is None:
+        try:
+            p.stdin.close()
+        except OSError:
+            pass
+        p.wait(timeout=10)
+    return res
+
+
+def run_lines(exe, lines, timeout=240, shards=NPROC):
     """feed lines to `exe prop`, one result line per input line; sharded."""
     if not lines:
         return []
@@ -401,12 +448,8 @@ def run_lines(exe, lines, timeout=600, shards=NPROC):
         if res and res[-1] == '':
             res.pop()
         if len(res) != len(chunk):
-            # crashed / aborted mid-way: rerun line by line to attribute
-            res = []
-            for l in chunk:
-                rc1, o1 = sh([exe], inp=l + '\n', timeout=60)
-                o1 = o1.strip('\n').split('\n')
-                res.append(o1[0] if rc1 == 0 and len(o1) == 1 and o1[0] else 'abort rc=%d' % rc1)
+            # crashed, aborted or hung mid-way: line-by-line dialogue with a per-case time limit
+            res = run_dialogue(exe, chunk)
         return res
     with ThreadPoolExecutor(max_workers=n) as ex:
         outs = list(ex.map(one, chunks))
@@ -509,6 +552,8 @@ def run_check(prop, argv):
         if not model:
             model = run_lines(model_cli_path(pid), lines)
         for c, i, m in zip(cases, impl, model):
+            if i == 'skipped' or m == 'skipped':
+                continue
             evaluations += 1
             if profile == profiles[0]:
                 hist[c.cls] = hist.get(c.cls, 0) + 1
